@@ -113,7 +113,7 @@ Fixpoint steps_agree (h : hst) (l : list stepobs) : bool * hst :=
 (* the final observations: a further thread runs evict_all_unpinned and clear alone *)
 Definition FIN : nat := 1000.
 Definition with_thread (s : st) (t : nat) (p : list op) : st :=
-  mkSt (shs s) (used s) (lim s) (oth s) (thr s ++ [(t, init_thread p)]) (glast s) (gleak s) (grace s).
+  mkSt (shs s) (used s) (lim s) (oth s) (thr s ++ [(t, init_thread p)]) (alock s) (glast s) (gleak s) (grace s).
 Fixpoint run_op_end (n : nat) (t : nat) (s : st) : st :=
   match n with
   | O => s
